@@ -111,6 +111,23 @@ class RecProgram:
             out.extend(x.linear() if kind == 'program' else x.ops)
         return out
 
+    def kernel_objects(self):
+        """(name, identity) of every kernel object of the program tree (a kernel repeated by add_for is one object)."""
+        out = set()
+        for kind, x in self.items:
+            if kind == 'program':
+                out |= x.kernel_objects()
+            else:
+                out.add((x.name, id(x)))
+        return out
+
+    def duplicate_kernel_names(self):
+        """Names carried by more than one kernel object: OpenQL rejects such a program ('duplicate kernel name')."""
+        seen = {}
+        for name, ident in self.kernel_objects():
+            seen.setdefault(name, set()).add(ident)
+        return sorted(n for n, ids in seen.items() if len(ids) > 1)
+
     def names(self):
         out = [('program', self.name)]
         for kind, x in self.items:
